@@ -86,6 +86,20 @@ func ForkBlock(fork int) uint64 {
 }
 
 func NewEnv(logger *log.Logger, blockNo uint64, tracer vm.Tracer) *Env {
+	return NewEnvAt(logger, blockNo, params.SelfDestructRefundForkBlock+10, tracer)
+}
+
+// PTN returns a prime terminus number before (0) / after (1) params.SelfDestructRefundForkBlock, the
+// height that switches the overflow handling of opETX / opConvert and the SELFDESTRUCT refund.
+func PTN(after int) uint64 {
+	if after == 0 {
+		return params.SelfDestructRefundForkBlock - 10
+	}
+	return params.SelfDestructRefundForkBlock + 10
+}
+
+// NewEnvAt is NewEnv with an explicit prime terminus number.
+func NewEnvAt(logger *log.Logger, blockNo uint64, primeTerminusNumber uint64, tracer vm.Tracer) *Env {
 	vm.InitializePrecompiles(Loc)
 	db := rawdb.NewMemoryDatabase(logger)
 	sdb, err := state.New(types.EmptyRootHash, types.EmptyRootHash, big.NewInt(0), state.NewDatabase(db), state.NewDatabase(db), nil, Loc, logger)
@@ -113,7 +127,7 @@ func NewEnv(logger *log.Logger, blockNo uint64, tracer vm.Tracer) *Env {
 		Difficulty:          big.NewInt(1000000),
 		BaseFee:             big.NewInt(1),
 		QuaiStateSize:       new(big.Int).Lsh(big.NewInt(1), 20),
-		PrimeTerminusNumber: params.SelfDestructRefundForkBlock + 10,
+		PrimeTerminusNumber: primeTerminusNumber,
 	}
 	txCtx := vm.TxContext{Origin: e.Origin, GasPrice: big.NewInt(1), Hash: common.BytesToHash([]byte{0xc1, 0x5})}
 	cfg := vm.Config{}
